@@ -100,6 +100,8 @@ def abst(x):
 
 def t_text(t):
     if t["k"] == "var":
+        if t.get("hidden"):
+            return "_:" + t["v"]          # a blank node label in a pattern: a variable that cannot be selected
         return "?" + t["v"]
     return conc(t).n3()
 
